@@ -75,6 +75,7 @@ type expectRec struct {
 	InDomain   bool            `json:"indomain"`
 	Probe      bool            `json:"probe"`
 	Dec        string          `json:"dec"`
+	RawDec     string          `json:"rawdec"`
 	Back       json.RawMessage `json:"back"`
 	Canon      bool            `json:"canon"`
 	Lenient    string          `json:"lenient"`
@@ -545,6 +546,24 @@ func (w *worker) checkMsg(c *caseRec, e *expectRec, g *gen, b *builder, p []byte
 		w.afterAccept("valid encoding", "valid", g, b, e.Back, o, hdr, p, e.Canon, true, e.Lenient, e.Reenc, nil)
 	}
 
+	// ---- the decoder of the type called directly (independent of the command table)
+	if dm := emptyMsg(c.Type); dm != nil && len(p) <= int(w.root.MaxMessagePayload) {
+		buf := bytes.NewBuffer(p)
+		cls, derr, alloc, pan := guarded(func() error { return dm.BtcDecode(buf, pver, enc) })
+		w.harmless("BtcDecode(valid encoding)", "direct", alloc, pan, p, nil)
+		if w.compareDecision("BtcDecode(encoding of the value)", "direct", e.RawDec, cls, derr, p, nil) {
+			exp, err := b.build(c.Type, e.Back)
+			if err != nil {
+				w.cur.Err = "build decoded value: " + err.Error()
+				return
+			}
+			w.cur.Evals++
+			if ok, why := sameValue(dm, exp); !ok {
+				w.violate("roundtrip:"+c.Type+":direct", "BtcDecode: decoded message differs from the value of the specification at "+why, nil)
+			}
+		}
+	}
+
 	// ---- mutations of the payload, framed correctly
 	w.msgVariants(c, e, g, b, p)
 
@@ -819,12 +838,18 @@ func (w *worker) checkSer(c *caseRec, e *expectRec, g *gen, b *builder, p []byte
 	if witness {
 		api = "Serialize"
 	}
-	// ---- encoder and size functions
+	// ---- encoder and size functions (not for inputs no encoder produces)
 	var buf bytes.Buffer
 	buf.Grow(len(p))
-	cls, eerr, _, pan := guarded(func() error { return encode(&buf) })
+	var cls string
+	var eerr error
+	var pan any
+	if e.Encodable {
+		cls, eerr, _, pan = guarded(func() error { return encode(&buf) })
+	}
 	w.cur.Evals += 5
 	switch {
+	case !e.Encodable:
 	case pan != nil:
 		w.violate("panic:"+c.Type+":encode", fmt.Sprintf("%s panicked: %v", api, pan), nil)
 	case cls != e.EncRes:
@@ -839,10 +864,12 @@ func (w *worker) checkSer(c *caseRec, e *expectRec, g *gen, b *builder, p []byte
 		w.cur.Err = fmt.Sprintf("rendered %d bytes, specification size %d", len(p), e.Size)
 		return
 	}
-	if got := size(); got != e.FullSize {
+	if !e.Encodable {
+		msgTx, msgBlock = nil, nil
+	} else if got := size(); got != e.FullSize {
 		w.violate("size:"+c.Type, fmt.Sprintf("SerializeSize() = %d, specification %d", got, e.FullSize), nil)
 	}
-	if got := sizeStripped(); got != e.StripSize {
+	if got := sizeStripped(); e.Encodable && got != e.StripSize {
 		w.violate("size:"+c.Type+":stripped", fmt.Sprintf("SerializeSizeStripped() = %d, specification %d", got, e.StripSize), nil)
 	}
 	// ---- identifiers
@@ -887,16 +914,17 @@ func (w *worker) checkSer(c *caseRec, e *expectRec, g *gen, b *builder, p []byte
 	}
 
 	// ---- decoders
+	isTx := c.Type == "tx"
 	decode := func(in []byte) (string, error, uint64, any, wire.Message, int) {
 		r := bytes.NewReader(in)
 		var out wire.Message
 		cls, err, alloc, pan := guarded(func() error {
 			switch {
-			case msgTx != nil && witness:
+			case isTx && witness:
 				var d wire.MsgTx
 				out = &d
 				return d.Deserialize(r)
-			case msgTx != nil:
+			case isTx:
 				var d wire.MsgTx
 				out = &d
 				return d.DeserializeNoWitness(r)
@@ -963,7 +991,11 @@ func (w *worker) checkSer(c *caseRec, e *expectRec, g *gen, b *builder, p []byte
 	}
 	// btcutil wrappers read the witness serialisation
 	if witness {
-		w.btcutilFromBytes(c, e, p, e.Dec, false, txid, wtxid, blockHash, g, "valid", nil)
+		vc := "valid"
+		if !e.Encodable {
+			vc = "foreign" // identifiers were not computed
+		}
+		w.btcutilFromBytes(c, e, p, e.Dec, false, txid, wtxid, blockHash, g, vc, nil)
 	}
 	for k := range e.Variants {
 		v := &e.Variants[k]
@@ -1065,4 +1097,73 @@ func (w *worker) btcutilFromBytes(c *caseRec, e *expectRec, in []byte, res strin
 			}
 		}
 	}
+}
+
+// emptyMsg returns a zero message of the type.
+func emptyMsg(typ string) wire.Message {
+	switch typ {
+	case "version":
+		return &wire.MsgVersion{}
+	case "verack":
+		return &wire.MsgVerAck{}
+	case "getaddr":
+		return &wire.MsgGetAddr{}
+	case "addr":
+		return &wire.MsgAddr{}
+	case "addrv2":
+		return &wire.MsgAddrV2{}
+	case "getblocks":
+		return &wire.MsgGetBlocks{}
+	case "block":
+		return &wire.MsgBlock{}
+	case "inv":
+		return &wire.MsgInv{}
+	case "getdata":
+		return &wire.MsgGetData{}
+	case "notfound":
+		return &wire.MsgNotFound{}
+	case "tx":
+		return &wire.MsgTx{}
+	case "ping":
+		return &wire.MsgPing{}
+	case "pong":
+		return &wire.MsgPong{}
+	case "getheaders":
+		return &wire.MsgGetHeaders{}
+	case "headers":
+		return &wire.MsgHeaders{}
+	case "mempool":
+		return &wire.MsgMemPool{}
+	case "filteradd":
+		return &wire.MsgFilterAdd{}
+	case "filterclear":
+		return &wire.MsgFilterClear{}
+	case "filterload":
+		return &wire.MsgFilterLoad{}
+	case "merkleblock":
+		return &wire.MsgMerkleBlock{}
+	case "reject":
+		return &wire.MsgReject{}
+	case "sendheaders":
+		return &wire.MsgSendHeaders{}
+	case "feefilter":
+		return &wire.MsgFeeFilter{}
+	case "getcfilters":
+		return &wire.MsgGetCFilters{}
+	case "getcfheaders":
+		return &wire.MsgGetCFHeaders{}
+	case "getcfcheckpt":
+		return &wire.MsgGetCFCheckpt{}
+	case "cfilter":
+		return &wire.MsgCFilter{}
+	case "cfheaders":
+		return &wire.MsgCFHeaders{}
+	case "cfcheckpt":
+		return &wire.MsgCFCheckpt{}
+	case "sendaddrv2":
+		return &wire.MsgSendAddrV2{}
+	case "wtxidrelay":
+		return &wire.MsgWTxIdRelay{}
+	}
+	return nil
 }
